@@ -48,7 +48,9 @@ pub fn compare(
         }
         (Ok(_), Err(e)) | (Err(e), Ok(_)) => {
             let which = if a.is_ok() { "variant" } else { "original" };
-            leaf.ob_bool(&format!("{tag}.same-acceptance"), false, &format!("{which} refused: {e}"));
+            // (lots kept apart: whether a capital return is absorbed lot by lot is part of the recorded finding)
+            let m = if flags & LOTS_KEPT_APART != 0 { "~unmerged" } else { "" };
+            leaf.ob_bool(&format!("{tag}{m}.same-acceptance"), false, &format!("{which} refused: {e}"));
         }
         (Ok(oa), Ok(ob)) => {
             let da: Vec<IDisposal> = oa.disposals.iter().filter(|d| keep_disposal(d)).cloned().collect();
@@ -60,7 +62,9 @@ pub fn compare(
                 return;
             }
             let counts_equal = ga.iter().all(|(k, v)| gb[k].3 == v.3);
-            leaf.ob_bool(&format!("{tag}.same-leg-count"), counts_equal, "a (rule, acquisition date) is reported as a different number of legs");
+            // (for fills that the tool keeps as separate lots the number of legs is the recorded finding; the figures are not)
+            let lc = if flags & LOTS_KEPT_APART != 0 { format!("{tag}~unmerged.same-leg-count") } else { format!("{tag}.same-leg-count") };
+            leaf.ob_bool(&lc, counts_equal, "a (rule, acquisition date) is reported as a different number of legs");
             let mut atoms = Vec::new();
             for (k, v) in &ga {
                 let w = &gb[k];
@@ -122,6 +126,8 @@ fn keep_all_years(keep: &dyn Fn(&IDisposal) -> bool, ds: &[IDisposal]) -> bool {
 pub const YEARS: u8 = 1;
 /// ... except the dividend totals
 const NO_DIVIDENDS: u8 = 2;
+/// the variant is known to leave same-day lots unmerged: its leg COUNT falls under the recorded finding, its figures do not
+const LOTS_KEPT_APART: u8 = 4;
 
 /// after the tool's stable sort by date: are two same-day same-kind trade lines of one security separated by another line?
 /// (such lines are not merged into one lot / one sale by the tool: known finding F-C06)
@@ -240,8 +246,29 @@ pub fn c06(sk: &Skeleton) -> Leaf {
         }
         "fills" => {
             // each BUY/SELL recorded as two same-day fills with the same total quantity, consideration and fees
+            let uniform_only = sk.opt_str("fills").as_deref() == Some("uniform");
             for (i, l) in lines.iter().enumerate() {
                 if !matches!(l.kind, Kind::Buy | Kind::Sell) {
+                    continue;
+                }
+                let last_same_day = lines.iter().rposition(|x| x.day == l.day).unwrap_or(i);
+                if last_same_day > i {
+                    // fills of equal unit price and pro-rata fees (a half and a quarter of the trade), the second one after
+                    // every other line of that day: every share of the day then costs the same whichever lot it is taken
+                    // from, so the report must not move even where the tool keeps the two fills as separate lots
+                    for (tag, den) in [("half", 2), ("quarter", 4)] {
+                        let d = Decimal::from(den);
+                        let ua = Line { q: l.q / d, p: l.p, f: l.f / d, ..l.clone() };
+                        let ub = Line { q: l.q - l.q / d, p: l.p, f: l.f - l.f / d, ..l.clone() };
+                        let mut v3 = lines.clone();
+                        v3[i] = ua;
+                        v3.insert(last_same_day + 1, ub);
+                        let r3 = run_lines(sk, &v3);
+                        let fl = if mark(&v3).is_empty() { YEARS } else { YEARS | LOTS_KEPT_APART };
+                        compare(&mut leaf, &format!("C06.fills-uniform-separated-{tag}[{i}]"), &base, &r3, &one, &all_d, &all_h, fl);
+                    }
+                }
+                if uniform_only {
                     continue;
                 }
                 let zero = Decimal::ZERO;
@@ -263,7 +290,6 @@ pub fn c06(sk: &Skeleton) -> Leaf {
                 let r1 = run_lines(sk, &v1);
                 compare(&mut leaf, &format!("C06.fills-adjacent{}[{i}]", mark(&v1)), &base, &r1, &one, &all_d, &all_h, YEARS);
                 // second fill after every other line of that day (other securities, opposite trades)
-                let last_same_day = lines.iter().rposition(|x| x.day == l.day).unwrap_or(i);
                 if last_same_day > i {
                     let mut v2 = lines.clone();
                     v2[i] = a;
